@@ -134,6 +134,8 @@ func errNilPass(fn *ssa.Function, call *ssa.Call) []Edge {
 
 func runC07(c *Ctx) {
 	p := c.P
+	decodeFromFillsPrefix(c, "R7")
+	extensionKeySplit(c, "R2")
 	// ---- R1 ---------------------------------------------------------------------------------
 	pats, pos, ok := globalInitStrings(p, "lfs", "oidRE")
 	if !ok || len(pats) != 1 {
